@@ -86,7 +86,7 @@ def count_clauses(text):
     return len(re.findall(r"\b(requires|ensures|invariant|invariant_except_break|decreases)\b", text))
 
 
-def run_unit(unit, cfg, profile_name="default", extra_args=None, canary=False, seed=None, timeout=900):
+def run_unit(unit, cfg, profile_name="default", extra_args=None, canary=False, seed=None, timeout=900, strip=None):
     """cfg: dict with vc, verus_args, defines"""
     r = UnitResult(unit, profile_name)
     t0 = time.time()
@@ -94,7 +94,7 @@ def run_unit(unit, cfg, profile_name="default", extra_args=None, canary=False, s
     os.makedirs(os.path.join(BUILD, unit), exist_ok=True)
     try:
         kd = cfg.get("expected_not_under_contract")
-        text, origins, log = template.build(vc_path, REPO, cfg.get("defines", {}), canary=canary, known_drops=set(kd) if kd is not None else None)
+        text, origins, log = template.build(vc_path, REPO, cfg.get("defines", {}), canary=canary, known_drops=set(kd) if kd is not None else None, strip=strip)
         if canary:
             r.canaries = {"expected": log.canaries}
     except (template.TemplateError, template.ScanError, template.macroexp.MacroError) as e:
@@ -148,6 +148,7 @@ def run_unit(unit, cfg, profile_name="default", extra_args=None, canary=False, s
             except Exception:
                 pass
     hard = []
+    hard_fns = []
     for d in diags:
         if d.get("level") != "error":
             continue
@@ -160,6 +161,12 @@ def run_unit(unit, cfg, profile_name="default", extra_args=None, canary=False, s
         kind = classify_message(msg)
         if kind is None:
             hard.append(msg + " @ " + ", ".join("%d" % s["line_start"] for s in prim))
+            for sp in prim:
+                if os.path.basename(sp.get("file_name", "")) == os.path.basename(gen) and 0 < sp["line_start"] <= len(origins):
+                    o = origins[sp["line_start"] - 1]
+                    hard_fns.append(log.ghost_origin.get(o[1]) if o and o[0] == "vc" else None)
+                else:
+                    hard_fns.append(None)
             continue
         def in_gen(sp):
             return os.path.basename(sp.get("file_name", "")) == os.path.basename(gen)
@@ -206,6 +213,13 @@ def run_unit(unit, cfg, profile_name="default", extra_args=None, canary=False, s
         r.failures.append({"fn": fn, "kind": kind, "clause": clause_text, "clause_origin": _origin_str(co),
                            "at": at_text, "at_origin": _origin_str(ao), "message": msg, "id": oid,
                            "gen_line": at_line, "rendered": d.get("rendered", "")[:3000]})
+    if hard and strip is None and hard_fns and all(hard_fns):
+        # every front-end error sits in ghost code spliced into a function body (the body was rewritten): retry with the
+        # hints of those functions stripped, keeping their contracts - the obligations are then decided without hints
+        r2 = run_unit(unit, cfg, profile_name, extra_args, canary, seed, timeout, strip=set(hard_fns))
+        if r2.status != "infra":
+            return r2
+        hard.append("retry without the hints of %s: %s" % (sorted(set(hard_fns)), r2.infra_msg))
     if hard:
         r.status = "infra"
         r.infra_msg = "verus front-end error (not a proof obligation): " + " | ".join(hard[:3])
